@@ -757,7 +757,8 @@ static void run_case(CaseCtx& c)
     C16ChildOutcome res = c16_run_in_child(body);
 
     bool lib_exit = res.exited && res.exit_code == EXIT_FAILURE && res.err.find("Zero diagonal encountered in U") != std::string::npos;
-    std::string solve_key = cls;
+    // witness class for the numerical sub-checks: pattern / sorted|unsorted|as-assembled [/ solver transfer]
+    std::string solve_key = std::string(pattern_name(pt)) + "/" + (order < 0 ? "as-assembled" : order == 0 ? "sorted" : "unsorted");
     if (xfer != 0)
         solve_key += std::string("/") + XFER_NAMES[xfer];
     if (lib_exit) {
@@ -805,7 +806,7 @@ static void run_case(CaseCtx& c)
         const double* x0 = &res.data[1];
         const double* xr = &res.data[1 + (size_t)nrhs * n];
         bool same        = memcmp(x0, xr, sizeof(double) * n) == 0;
-        c.obs.require("repeat_solve_identical", same, solve_key + "/after-" + std::to_string(nrhs - 1) + "-other-rhs");
+        c.obs.require("repeat_solve_identical", same, solve_key + (nrhs > 1 ? "/after-other-rhs" : "/immediately"));
     }
     c.obs.info.str("outcome", high_growth ? "solved-high-growth" : "solved").num("worst_first_rhs", worst_first).num("worst_later_rhs", worst_later);
     c.obs.top.b("nontrivial", n >= 2 && ref.nnzL > 0 && ref.nnzU > 0 && !high_growth);
